@@ -1520,7 +1520,14 @@ def parse_as_ast(
         # Since this is a function in python, we can look for lambda capture.
         # (its default values are what python computed when it was made, like a helper's)
         if isinstance(src_ast, ast.Lambda):
-            _defaults_at_definition(ast_source, src_ast)
+            if not _defaults_at_definition(ast_source, src_ast):
+                # (a helper in this state stays a call by name; the lambda that was passed has
+                # nowhere to stay: leaving its defaults as written would look all of them
+                # up by name again, as of now)
+                raise ValueError(
+                    "A default value of the lambda is a function that the name it was written "
+                    f"with no longer stands for - {ast.unparse(src_ast)}"
+                )
         call_args = global_getclosurevars(ast_source)
         return _resolve_called_lambdas().visit(_rewrite_captured_vars(call_args).visit(src_ast))
 
